@@ -23,8 +23,8 @@ import (
 // one) for C09, a runtime-built list / vector / map bound to a global for C11 - and the other positions hold
 // plausible companions (type specifiers, indices, comparators, path steps, fresh containers).  After the call
 //
-//	(a) every tracked value must still print as before unless the callable is a documented mutator AND the tracked
-//	    value is not a program literal;
+//	(a) every tracked value must still print as before unless the callable is a documented mutator (the set is a
+//	    constant of Launder.tla) AND the changed value is the runtime value it was handed;
 //	(b) the RESULT is then scrambled in place by every mutator the language has (stable-sort with an order-reversing
 //	    comparator, elpspath:?set!, append!, assoc!, dissoc!, recursively into its elements), and afterwards every
 //	    program literal must still evaluate to its original value and the program's structural fingerprint must be
@@ -77,18 +77,16 @@ var ldGlobals = [][2]string{
 }
 
 var ldOthers = []string{
-	"'list", "'vector", "'string", "0", "1", "2", "3", "10", "<", "identity", "car", "\"a\"", "'a", "()", "true",
-	"'(range 0 3)", "'(range 0 2)", "'(range 1 3)", "(vector 0 0 0)", "(list 7 8 9)", "(sorted-map \"a\" 1)",
-	"(lambda (&rest xs) true)", "(lambda (x) x)", "(lambda (a b) (< a b))",
+	"'list", "'vector", "0", "1", "3", "<", "identity", "\"a\"", "()",
+	"'(range 0 3)", "'(range 1 3)", "(vector 0 0 0)", "(list 7 8 9)", "(sorted-map \"a\" 1)", "(lambda (&rest xs) true)",
+	// (the rest is used at arities 1 and 2 only)
+	"'string", "2", "10", "car", "'a", "true", "'(range 0 2)", "(lambda (x) x)", "(lambda (a b) (< a b))",
 }
 
-// callables documented as changing their target: they may change a RUNTIME value handed to them (never a literal).
-// Functions that call a function argument are listed too when the companions could make them mutate (none of the
-// companions above mutates, so none is).
-var ldMutators = map[string]bool{
-	"lisp:assoc!": true, "lisp:dissoc!": true, "lisp:append!": true, "lisp:append-bytes!": true, "lisp:stable-sort": true,
-	"elpspath:?set!": true, "elpspath:?del!": true, "elpspath:?nil!": true,
-}
+const ldCoreOthers = 15
+
+// tracked values used at arity >= 3 (indices into the tracked list: literals first, then the globals)
+var ldCoreTracked = []int{0, 1, 4, 6, 7, 8, 10, 11, 12}
 
 type ldState struct {
 	env    *lisp.LEnv
@@ -96,6 +94,7 @@ type ldState struct {
 	fp     uint64
 	litOK  []string // printed form of every literal expression at start
 	globOK []string
+	allLit, allLitOK, allGlob, allGlobOK string
 }
 
 func ldNew() (*ldState, error) {
@@ -121,21 +120,37 @@ func ldNew() (*ldState, error) {
 		}
 		st.globOK = append(st.globOK, safeStr(env.LoadString("ld", g[0])))
 	}
+	st.allLit = "(list " + strings.Join(ldLiterals, " ") + ")"
+	st.allLitOK = safeStr(env.LoadString("ld", st.allLit))
+	names := []string{}
+	for _, g := range ldGlobals {
+		names = append(names, g[0])
+	}
+	st.allGlob = "(list " + strings.Join(names, " ") + ")"
+	st.allGlobOK = safeStr(env.LoadString("ld", st.allGlob))
 	return st, nil
 }
 
 // check returns a description of the first tracked value that no longer reads as it did
 func (st *ldState) check(literalsOnly bool, skipGlobal int) (string, string, string) {
-	for i, l := range ldLiterals {
-		if got := safeStr(st.env.LoadString("ld", l)); got != st.litOK[i] {
-			return l, st.litOK[i], got
+	if got := safeStr(st.env.LoadString("ld", st.allLit)); got != st.allLitOK {
+		for i, l := range ldLiterals {
+			if got := safeStr(st.env.LoadString("ld", l)); got != st.litOK[i] {
+				return l, st.litOK[i], got
+			}
 		}
+		return "literals", st.allLitOK, got
 	}
 	if fp := lisp.SealedASTFingerprint(st.exprs); fp != st.fp {
 		return "fingerprint", fmt.Sprint(st.fp), fmt.Sprint(fp)
 	}
 	if literalsOnly {
 		return "", "", ""
+	}
+	if skipGlobal < 0 {
+		if got := safeStr(st.env.LoadString("ld", st.allGlob)); got == st.allGlobOK {
+			return "", "", ""
+		}
 	}
 	for i, g := range ldGlobals {
 		if i == skipGlobal {
@@ -208,6 +223,7 @@ func init() {
 				}
 				var bad []interface{}
 				calls := 0
+				counts := map[string]int{"literal": 0, "fingerprint": 0, "target": 0, "other": 0}
 				for _, n := range mxArities(c.formals) {
 					if n == 0 {
 						continue
@@ -217,12 +233,18 @@ func init() {
 						fmt.Fprintln(os.Stderr, err)
 						os.Exit(2)
 					}
-					total := len(tracked) * n
+					// arities 1 and 2: every tracked value x every companion; arity 3: the core pools, exhaustive;
+					// arity 4: the core pools, sampled
+					nt, no := len(tracked), len(ldOthers)
+					if n >= 3 {
+						nt, no = len(ldCoreTracked), ldCoreOthers
+					}
+					total := nt * n
 					for i := 1; i < n; i++ {
-						total *= len(ldOthers)
+						total *= no
 					}
 					count := total
-					sampled := n >= 3 && in.Samples < total
+					sampled := n >= 4 && in.Samples < total
 					if sampled {
 						count = in.Samples
 					}
@@ -231,8 +253,11 @@ func init() {
 						if sampled {
 							x = rnd.Intn(total)
 						}
-						ti := x % len(tracked)
-						x /= len(tracked)
+						ti := x % nt
+						if n >= 3 {
+							ti = ldCoreTracked[ti]
+						}
+						x /= nt
 						pos := x % n
 						x /= n
 						argv := make([]string, n)
@@ -241,8 +266,8 @@ func init() {
 								argv[i] = tracked[ti]
 								continue
 							}
-							argv[i] = ldOthers[x%len(ldOthers)]
-							x /= len(ldOthers)
+							argv[i] = ldOthers[x%no]
+							x /= no
 						}
 						call := fmt.Sprintf("(%s %s)", c.qname, strings.Join(argv, " "))
 						isLit := ti < len(ldLiterals)
@@ -251,12 +276,9 @@ func init() {
 						res, escaped := ldEval(st.env, "(set 'ld-result "+call+")")
 						calls++
 						failed := escaped != "" || res.Type == lisp.LError
-						// (a) nothing tracked changed by the call itself - except the runtime value a documented mutator was given
-						skip := -1
-						if !isLit && ldMutators[c.qname] {
-							skip = ti - len(ldLiterals)
-						}
-						what, before, after := st.check(false, skip)
+						// (a) what the call itself changed (whether a changed ARGUMENT is a violation depends on the callable being a
+						// documented mutator: Launder.tla decides, the driver only classifies)
+						what, before, after := st.check(false, -1)
 						if what == "" && !failed {
 							// (b) scramble the result in place; the literals and the program must not notice
 							ldEval(st.env, "(ld-scramble ld-result 3)")
@@ -272,8 +294,18 @@ func init() {
 							st.env.InPackage(lisp.String(lisp.DefaultUserPackage))
 						}
 						if what != "" {
-							if len(bad) < 12 {
-								bad = append(bad, J{"what": what, "call": call, "tracked": tracked[ti], "before": before, "after": after})
+							class := "other"
+							switch {
+							case strings.HasSuffix(what, "fingerprint"):
+								class = "fingerprint"
+							case strings.Contains(what, "(lit-") || strings.HasSuffix(what, "literals"):
+								class = "literal"
+							case strings.HasSuffix(what, ": "+tracked[ti]):
+								class = "target"
+							}
+							counts[class]++
+							if counts[class] <= 6 {
+								bad = append(bad, J{"class": class, "what": what, "call": call, "tracked": tracked[ti], "before": before, "after": after})
 							}
 							// the runtime now holds a damaged value: start again from a fresh parse
 							st, err = ldNew()
@@ -290,7 +322,7 @@ func init() {
 						}
 					}
 				}
-				out.emit(J{"id": in.ID, "name": c.qname, "calls": calls, "bad": bad})
+				out.emit(J{"id": in.ID, "name": c.qname, "calls": calls, "counts": counts, "bad": bad})
 				out.flush()
 			}
 		})
